@@ -102,6 +102,14 @@ def run(ctx):
         ctx.current("dba %r" % (wit,))
         snapshot = (c_np.copy(), [np.array(s) for s in ss])
         res = {}
+        # integer-typed initial average (Python engine): the result must still be the fractional mean
+        int_c = (not nd) and kind in ("alpha", "dyadic") and rng.random() < 0.3
+        if int_c:
+            c = [float(int(round(v))) for v in c]
+            c_np = np.array(c, dtype=float)
+            snapshot = (c_np.copy(), [np.array(s) for s in ss])
+            wit["c"] = c
+            wit["c_dtype"] = "int64 for the Python engine"
         for use_c in (False, True):
             try:
                 if use_c:
@@ -114,7 +122,8 @@ def run(ctx):
                         dtw_cc.dba(data, cc, mask=packed, nb_prob_samples=0, **ckw)
                     res[use_c] = cc
                 else:
-                    res[use_c] = np.asarray(dtw_barycenter.dba(data, c_np, mask=mask, use_c=False, **kw))
+                    c_in = np.array([int(v) for v in c], dtype=np.int64) if int_c else c_np
+                    res[use_c] = np.asarray(dtw_barycenter.dba(data, c_in, mask=mask, use_c=False, **kw))
             except Exception as e:
                 ctx.violation("exception", fn="dba", use_c=use_c, error=repr(e)[:300], **wit)
         # inputs untouched
